@@ -6,12 +6,17 @@
     exactly the cut bonds of the molecule — the created (atom, descriptor, atom, descriptor)
     tuples are a permutation of all cut pairs ([C01_bonding_step]; [C01_bonding_partial] is the
     one-edge version) — and [dedicated_b] / [disjoint_edges_b], the executable tests of these
-    hypotheses run on every generated input, are sound.  Together with C03 (orders, no descriptor reused), C02
-    (each coarse node is a copy of its fragment), C09 (hydrogen completion) and C13 (descriptor
-    stripping for every rendering) this composes to the property; the end-to-end equality
+    hypotheses run on every generated input, are sound.  Together with C03 (orders, no descriptor
+    reused), C02 (each coarse node is a copy of its fragment: C02_frag_copy, C02_step_frag_exact),
+    C09 (hydrogen completion: C09_rebuild_end_to_end, C09_rebuild_valence_sum) and C13 (descriptor
+    stripping for every rendering: C13_partial; the text level "however each fragment's SMILES is
+    written": C13_render_parse — the model of pysmiles' tokenizer and base parser builds exactly the
+    token-level graph —, C13_index_agrees_with_parser, C01_rendering_independent_partial — ring-digit
+    choice, digit vs %nn —, C01_branch_order_partial — order of sibling branches —, all stated in
+    Properties/C13.v) this composes to the property; the end-to-end equality
     "resolve(cut M) = H-complete(M) = resolve(single M)" through pysmiles' parser and aromaticity
     perception is NOT a theorem: it is decided by the per-run search (tools/props/c01.py) and is
-    labelled so in the evidence.  [C01_bonding_partial] is therefore the proved part. *)
+    labelled so in the evidence.  [C01_bonding_step] is therefore the part proved here. *)
 From Coq Require Import String.
 From Coq Require Import List Ascii ZArith Bool Permutation.
 From CGV Require Import Base.PyBase Base.PyVal Gen.ResolveGen Resolve.Bonding Resolve.BondingDefs
